@@ -47,6 +47,8 @@ func init() {
 		Rules: []func(*Ctx){ruleSiblingParam, ruleOverflowIdiom, a7Files(20, "redisHashTable.go")}})
 	register(&PropSpec{ID: "C05", Explanation: "x", Assumptions: commonAssumptions,
 		Rules: []func(*Ctx){ruleReadonly(nil), a7Files(15, "redisSet.go")}})
+	register(&PropSpec{ID: "C14", Explanation: "x", Assumptions: commonAssumptions,
+		Rules: []func(*Ctx){ruleC14DbTable, ruleC14Select, ruleA1Modes}})
 	register(&PropSpec{
 		ID: "C06",
 		Explanation: "Structural necessary conditions of keyspace discipline, decided for every site of the current source: (A4-empty) after every site that can shrink a list/hash/set, every path to the end of the critical section tests the aggregate's count against zero and removes the key on the empty side; (A7, files redisCore.go) every option the keyspace handlers look up can be produced by the grammar. The check decides these structural clauses for all paths; it does not decide reply values.",
@@ -101,6 +103,6 @@ func init() {
 		Explanation: "A4-dirty: every mutation site of database state is accompanied, on every path through it inside its critical section, by an event that marks the database's keyspace dirty — otherwise the periodic/final save skips the change and a restart loses it.",
 		NotDecided:  "gob round-trip equality; on-disk states at crash points (needs execution or a file-system model)",
 		Assumptions: commonAssumptions,
-		Rules:       []func(*Ctx){ruleA4Dirty},
+		Rules:       []func(*Ctx){ruleA4Dirty, ruleC19AllDbs, ruleC19Records, ruleC19Atomic, ruleC14DbTable, rulePayloadAgree, ruleCtorAgree},
 	})
 }
